@@ -289,6 +289,8 @@ impl<Builder: OctetsBuilder> Decoder<Builder> {
             }
             if self.buf[3] != 0x80 {
                 if self.buf[2] == 0x80 {
+                    self.next = 0xF0;
+                    self.target = Err(DecodeError::TrailingInput);
                     return Err(DecodeError::TrailingInput);
                 }
                 target
